@@ -320,7 +320,7 @@ Theorem bwrite_drep c bd d info n bs bf f op w1' acts b ls :
   lookup n (dk_files d) = Some f -> blookup n bd = Some bf -> frep_at info bs None bf f ->
   wrun (wst info s) [op] = Some (w1', acts, [b]) -> fst b = map enc ls -> logs_ok ls ->
   len (image info (bs ++ [b])) < two32 ->
-  acts = [WWrite off new; WSync] /\
+  acts = [WWrite off new; WSync] /\ w1' = wst info (cstate info (bs ++ [b])) /\
   drep c (bapply bd (BWrite n off new)) (apply_act d aw) /\
   drep c (bapply (bapply bd (BWrite n off new)) (BSync n)) (apply_act (apply_act d aw) (ASync n)) /\
   frep_at info bs (Some b) (bwrite_file bf off new) (written f (pb_of ls w1')) /\
@@ -338,7 +338,7 @@ Proof.
   { unfold drep, aw. rewrite (bapply_write _ _ _ _ _ Hb).
     rewrite (apply_write_files _ _ _ _ _ _ El (rep_pend _ _ _ Rr)).
     apply frel_update; [exact H|exact Hh|]. exists bs, (Some b). eapply frep_at_hdr_eq; eauto. }
-  split; [exact Ea|]. split; [exact D1|]. split; [apply bsync_drep; exact D1|]. split; [exact Rw|].
+  split; [exact Ea|]. split; [exact Ew|]. split; [exact D1|]. split; [apply bsync_drep; exact D1|]. split; [exact Rw|].
   pose proof (frep_sync _ _ _ _ _ Rw) as Rs. cbn [opt_batch] in Rs.
   replace (crashed true (written f (pb_of ls w1'))) with (synced f (pb_of ls w1')) in Rs by reflexivity.
   exact Rs.
